@@ -5,6 +5,7 @@
         asrc:i:k  reset:i  rptr:i:k|null:off:n  resize:i:n:v
         cc:i:j  ca:i:j  mc:i:j  ma:i:j  del:i  w:i:idx:v
         pw:i:K:j:off:n   slot i := K(w_j.data()+off, n)      rw:i:j:off:n   w_i.reset(w_j.data()+off, n)  (j = i: self-aliasing)
+        rr:i:n:j:idx     w_i.resize(n, w_j[idx])   the fill value passed by reference to an element (j = i: of the array itself)
         K = V (ArrayView) O (OwnedArray) F (FixedArray) W (FixedArrayView);  LIST = v,v,v or -
      D <sz> <off> <stride> <LIST bytes> <LIST indices>     DataView<T>, sizeof(T) = sz
    output, one line per case:
@@ -42,6 +43,7 @@ let parse tok = match split ':' tok with
   | ["w"; i; idx; v] -> Write (nat i, nat idx, n_of_int (ios v))
   | ["pw"; i; kd; j; off; n] -> FromWrap (nat i, kind_of kd, nat j, nat off, nat n)
   | ["rw"; i; j; off; n] -> ResetWrap (nat i, nat j, nat off, nat n)
+  | ["rr"; i; n; j; idx] -> ResizeRef (nat i, nat n, nat j, nat idx)
   | _ -> failwith ("bad op " ^ tok)
 let pr_rd = function RVal v -> string_of_int (int_of_n v) | RDangling -> "D" | ROob -> "B" | RNull -> "N"
 let pr_obs = function
